@@ -169,8 +169,8 @@ Definition curve_site (k : keydesc) : option site :=
 Definition view_spec (a : jwe_alg_row) (r : recip) (v : rview) : Prop :=
   match v_epk v with
   | None => is_agreement a = false
-  | Some EpkPreset => is_agreement a = true /\ r_preset_epk r <> None
-  | Some (EpkDrawn d) => is_agreement a = true /\ r_preset_epk r = None
+  | Some EpkPreset => is_agreement a = true /\ caller_preset r <> None
+  | Some (EpkDrawn d) => is_agreement a = true /\ caller_preset r = None
                          /\ Some (d_site d) = curve_site (r_key r)
   end /\
   match v_gcm_iv v with
@@ -250,8 +250,8 @@ Proof. unfold do_draw. intro H. inversion H. subst. auto. Qed.
 
 Lemma prepare_epk_ok a r w s ds w' :
   prepare_epk a r w = mkout (Ok s) ds w' ->
-  (exists k, r_preset_epk r = Some k /\ s = EpkPreset /\ ds = []) \/
-  (r_preset_epk r = None /\ exists d, s = EpkDrawn d /\ ds = [d]
+  (exists k, caller_preset r = Some k /\ s = EpkPreset /\ ds = []) \/
+  (caller_preset r = None /\ exists d, s = EpkDrawn d /\ ds = [d]
      /\ Some (d_site d) = curve_site (r_key r)).
 Proof.
   intro H. unfold prepare_epk, gen_like, gen_ec, gen_okp in H.
@@ -314,8 +314,8 @@ Proof.
   assert (Hepk : ds1 = epk_draws {| v_epk := epk; v_gcm_iv := None; v_p2s := None; v_p2c := None |}
           /\ match epk with
              | None => is_agreement a = false
-             | Some EpkPreset => is_agreement a = true /\ r_preset_epk r <> None
-             | Some (EpkDrawn d) => is_agreement a = true /\ r_preset_epk r = None
+             | Some EpkPreset => is_agreement a = true /\ caller_preset r <> None
+             | Some (EpkDrawn d) => is_agreement a = true /\ caller_preset r = None
                                     /\ Some (d_site d) = curve_site (r_key r)
              end).
   { destruct (is_agreement a) eqn:Eag.
@@ -862,4 +862,139 @@ Lemma encs_ok_of_forallb encs :
 Proof.
   intro H. unfold encs_ok. apply Forall_forall. intros e He.
   rewrite forallb_forall in H. specialize (H e He). apply N.leb_le in H. exact H.
+Qed.
+
+(* ------------------------------------------------------------------ *)
+(* 9. reused message objects *)
+Lemma encrypt_object_irrelevant algs encs ns (o1 o2 : jobject) w :
+  jo_msg o1 = jo_msg o2 ->
+  let r1 := encrypt_object algs encs ns o1 w in
+  let r2 := encrypt_object algs encs ns o2 w in
+  o_draws r1 = o_draws r2 /\ o_world r1 = o_world r2 /\
+  match o_res r1, o_res r2 with
+  | Ok (t1, _), Ok (t2, _) => t1 = t2
+  | Err e1, Err e2 => e1 = e2
+  | _, _ => False
+  end.
+Proof.
+  intro H. unfold encrypt_object, bindM. rewrite H.
+  destruct (encrypt algs encs (jo_msg o2) w) as [r ds w']. cbn.
+  destruct r as [t|e]; cbn; rewrite ?app_nil_r; auto.
+Qed.
+
+Lemma encrypt_object_is_encrypt algs encs ns o w :
+  let r := encrypt_object algs encs ns o w in
+  let r0 := encrypt algs encs (jo_msg o) w in
+  o_draws r = o_draws r0 /\ o_world r = o_world r0 /\
+  match o_res r, o_res r0 with
+  | Ok (t, _), Ok t0 => t = t0
+  | Err e, Err e0 => e = e0
+  | _, _ => False
+  end.
+Proof.
+  unfold encrypt_object, bindM.
+  destruct (encrypt algs encs (jo_msg o) w) as [r ds w']. cbn.
+  destruct r as [t|e]; cbn; rewrite ?app_nil_r; auto.
+Qed.
+
+(* what the next encryption of the same object sees: algorithms, keys, sender keys and CALLER
+   presets are unchanged; a generated ephemeral key does not become a preset *)
+Lemma msg_after_preserves algs m t :
+  Forall2 (recip_spec algs) (m_recips m) (t_recips t) ->
+  m_enc (msg_after m t) = m_enc m /\
+  map caller_preset (m_recips (msg_after m t)) = map caller_preset (m_recips m) /\
+  map r_alg (m_recips (msg_after m t)) = map r_alg (m_recips m) /\
+  map r_key (m_recips (msg_after m t)) = map r_key (m_recips m) /\
+  map r_sender (m_recips (msg_after m t)) = map r_sender (m_recips m).
+Proof.
+  unfold msg_after. cbn [m_enc m_recips]. intro HF. split; [reflexivity|].
+  induction HF as [|r v rs vs (a & _ & Hv) _ IH]; cbn; auto.
+  destruct IH as (A & B & C & D). rewrite A, B, C, D. repeat split; try reflexivity.
+  f_equal. unfold caller_preset at 1. cbn.
+  destruct Hv as (He & _).
+  destruct (v_epk v) as [[d|]|]; cbn; try reflexivity.
+  destruct He as (_ & Hn & _). symmetry. exact Hn.
+Qed.
+
+(* a recipient of an agreement algorithm without caller preset gets a newly generated key *)
+Lemma fresh_epk_views algs rs vs :
+  Forall2 (recip_spec algs) rs vs ->
+  Forall2 (fun r v => caller_preset r = None ->
+             match v_epk v with
+             | None => forall a, find_alg algs (r_alg r) = Some a -> is_agreement a = false
+             | Some EpkPreset => False
+             | Some (EpkDrawn d) => Some (d_site d) = curve_site (r_key r)
+             end) rs vs.
+Proof.
+  induction 1 as [|r v rs vs (a & Ha & Hv) _ IH]; constructor; auto.
+  intro Hn. destruct Hv as (He & _).
+  destruct (v_epk v) as [[d|]|].
+  - tauto.
+  - destruct He as (_ & He). congruence.
+  - intros a' Ha'. rewrite Ha in Ha'. inversion Ha'; subst. exact He.
+Qed.
+
+Lemma in_flat_epk vs v d : In v vs -> v_epk v = Some (EpkDrawn d) -> In d (flat_map epk_draws vs).
+Proof.
+  intros Hin He. apply in_flat_map. exists v. split; [exact Hin|].
+  unfold epk_draws. rewrite He. left; reflexivity.
+Qed.
+
+Lemma fresh_epk_strengthen algs (R : draw -> Prop) rs vs :
+  Forall2 (fun r v => caller_preset r = None ->
+             match v_epk v with
+             | None => forall a, find_alg algs (r_alg r) = Some a -> is_agreement a = false
+             | Some EpkPreset => False
+             | Some (EpkDrawn d) => Some (d_site d) = curve_site (r_key r)
+             end) rs vs ->
+  (forall v, In v vs -> forall d, v_epk v = Some (EpkDrawn d) -> R d) ->
+  Forall2 (fun r v => caller_preset r = None ->
+             match v_epk v with
+             | None => forall a, find_alg algs (r_alg r) = Some a -> is_agreement a = false
+             | Some EpkPreset => False
+             | Some (EpkDrawn d) => Some (d_site d) = curve_site (r_key r) /\ R d
+             end) rs vs.
+Proof.
+  induction 1 as [|r v rs vs Hrv _ IH]; intro Hin; constructor.
+  - intro Hn. specialize (Hrv Hn). destruct (v_epk v) as [[d|]|] eqn:E; auto.
+    split; [exact Hrv|]. apply (Hin v); [left; reflexivity|exact E].
+  - apply IH. intros v' Hv'. apply Hin. right; exact Hv'.
+Qed.
+
+(* second (n-th) encryption of the same object *)
+Theorem epk_fresh_on_reuse algs encs m w t1 ds1 w1 t2 ds2 w2 :
+  encrypt algs encs m w = mkout (Ok t1) ds1 w1 ->
+  encrypt algs encs (msg_after m t1) w1 = mkout (Ok t2) ds2 w2 ->
+  exists e, find_enc encs (m_enc m) = Some e /\
+    (8 <= ee_cek_size e ->
+     map caller_preset (m_recips (msg_after m t1)) = map caller_preset (m_recips m) /\
+     map r_alg (m_recips (msg_after m t1)) = map r_alg (m_recips m) /\
+     map r_key (m_recips (msg_after m t1)) = map r_key (m_recips m) /\
+     Forall2 (fun r v => caller_preset r = None ->
+                match v_epk v with
+                | None => forall a, find_alg algs (r_alg r) = Some a -> is_agreement a = false
+                | Some EpkPreset => False
+                | Some (EpkDrawn d) => Some (d_site d) = curve_site (r_key r)
+                                       /\ (In d ds2 /\ w_ctr w1 <= d_idx d < w_ctr w2)
+                end) (m_recips (msg_after m t1)) (t_recips t2)).
+Proof.
+  intros H1 H2. pose proof H2 as H2'.
+  pose proof (encrypt_filters _ _ _ _ _ _ _ H2) as (e2' & He2' & HFl).
+  apply encrypt_ok in H1 as (e & He & H1).
+  apply encrypt_ok in H2 as (e2 & He2 & H2).
+  exists e. split; [exact He|]. intro H8.
+  assert (Hpos : 0 < ee_cek_size e / 8) by (apply N.div_str_pos; lia).
+  destruct (H1 Hpos) as (_ & _ & _ & HF1 & _).
+  destruct (msg_after_preserves algs m t1 HF1) as (Henc & P1 & P2 & P3 & _).
+  rewrite Henc, He in He2, He2'. inversion He2; subst e2. inversion He2'; subst e2'.
+  destruct (H2 Hpos) as (_ & _ & _ & HF2 & _).
+  destruct (HFl H8) as (Hnat & _).
+  repeat split; auto.
+  apply fresh_epk_strengthen; [apply fresh_epk_views; exact HF2|].
+  intros v Hv d Hd'.
+  assert (Hi : In d ds2).
+  { pose proof (in_flat_epk _ _ _ Hv Hd') as Hi. rewrite <- Hnat in Hi. apply filter_In in Hi. tauto. }
+  split; [exact Hi|].
+  pose proof (disc_range (encrypt algs encs (msg_after m t1)) w1 d (disc_encrypt _ _ _)) as R.
+  rewrite H2' in R. cbn in R. apply R. exact Hi.
 Qed.
